@@ -160,6 +160,7 @@ def _ev(a, env):
             raise X.IllConditioned("MOD sign")
         q = x / y
         env.cond((q - round(q)) * y)
+        X.mod_conditioning(x, x % y)
         return X._num(x % y)
     if a[0] == "bin":
         return X.ev(["bin", a[1], ["num", _ev(a[2], env)], ["num", _ev(a[3], env)]], env)
